@@ -23,8 +23,8 @@
    that the path tables are always well formed / the candidate stream always sorted (evaluated per molecule: pid_ok). *)
 From Coq Require Import ZArith List Bool Permutation.
 From Model Require Import PyBase Graph Rings RingsFilter RingsGen RingsGenSpec.
-From Gen Require Import RingsConsts RingsPidBody RingsCacheKeys RingsCanonBody.
-From Proofs Require Import RingsProofs RingsMcb RingsRank RingsExt RingsDim RingsFund RingsMin RingsHorton RingsSizes RingsIso RingsEquiv RingsFilterProofs RingsGenProofs RingsGenWalks RingsMarks RingsConstsProofs RingsCanon RingsRounds RingsPidTie RingsCsetTie RingsCacheTie RingsBfsFuel RingsCacheEdit RingsCacheComps RingsCanonTie RingsArom.
+From Gen Require Import RingsConsts RingsPidBody RingsCacheKeys RingsCanonBody RingsTopBody.
+From Proofs Require Import RingsProofs RingsMcb RingsRank RingsExt RingsDim RingsFund RingsMin RingsHorton RingsSizes RingsIso RingsEquiv RingsFilterProofs RingsGenProofs RingsGenWalks RingsMarks RingsConstsProofs RingsCanon RingsRounds RingsPidTie RingsCsetTie RingsCacheTie RingsBfsFuel RingsCacheEdit RingsCacheComps RingsCanonTie RingsArom RingsTopTie RingsCrFuel.
 Import ListNotations.
 Open Scope Z_scope.
 
@@ -820,16 +820,16 @@ Theorem C06_remove_atom_changes_connectivity : forall g n ms, In (n, ms) g -> pr
 Proof. exact remove_atom_changes_connectivity. Qed.
 Print Assumptions C06_remove_atom_changes_connectivity.
 
-(* "the cache left by flush_cache(keep_sssr=True) after such an edit is valid" (Proofs.RingsCacheEdit.partial_flush_valid_after_atom_removal)
-   is FALSE for the faithful model of remove_metals: recorded finding stale-after-history:remove_metals:not_special_connectivity,
-   replayed on the real code by the check ... *)
+(* "the cache left by flush_cache(keep_sssr=True) ALONE after such an edit is valid" (Proofs.RingsCacheEdit.partial_flush_valid_after_atom_removal)
+   is FALSE: this was the finding stale-after-history:remove_metals:not_special_connectivity (repaired in /repo by fed0944, the check
+   alarms if it comes back) ... *)
 Theorem C06_partial_flush_valid_after_atom_removal_refuted : ~ partial_flush_valid_after_atom_removal.
 Proof. exact partial_flush_valid_after_atom_removal_refuted. Qed.
 Print Assumptions C06_partial_flush_valid_after_atom_removal_refuted.
 
-(* ... and holds when not_special_connectivity is not in the cache (implicify / explicify_hydrogens drop it since 55af6a9).  What is
-   missing for the full statement: remove_metals must drop the attribute too; sssr / atoms_rings / atoms_rings_sizes are not functions
-   of the graph in the model (set order is an oracle input) and are outside this statement (searched) *)
+(* ... and holds when not_special_connectivity is not in the cache: remove_metals (fed0944) and implicify / explicify_hydrogens (55af6a9)
+   drop it right after the flush.  sssr / atoms_rings / atoms_rings_sizes are not functions of the graph in the model (set order is an
+   oracle input) and are outside this statement (searched) *)
 Theorem C06_partial_flush_valid_after_atom_removal_partial :
   forall g n ms (c : cache_t rview), gwf g -> In (n, ms) g -> (length ms <= 1)%nat -> NoDup (map fst c) -> ring_cache_valid g c ->
   cget rview c nsc_key = None ->
@@ -876,3 +876,39 @@ Print Assumptions C06_aromatic_rings_subset.
 Theorem C06_aromatic_rings_length : forall g sssr l, aromatic_rings g sssr = Ok l -> (length l <= length sssr)%nat.
 Proof. exact aromatic_rings_length. Qed.
 Print Assumptions C06_aromatic_rings_length.
+
+(* ---- the top of the perception, translated from the source (Gen.RingsTopBody, tools/gen_ringstop.py): Rings.rings_count (the
+   arithmetic, operator by operator), Rings.sssr (the rings_count guard) and the pipeline _sssr = _rings_filter(_c_set(_make_pid(_bfs(
+   _skin_graph(bonds)))), n_sssr) with its arguments ---- *)
+Theorem C06_rings_count_translated : forall g, gen_rings_count g = rings_count g.
+Proof. exact rings_count_translated. Qed.
+Print Assumptions C06_rings_count_translated.
+
+Theorem C06_sssr_translated : forall g o, gen_sssr g o = sssr_model g o.
+Proof. exact sssr_translated. Qed.
+Print Assumptions C06_sssr_translated.
+
+Theorem C06_sssr_translated_example :
+  gen_sssr [(1, [2; 3]); (2, [1; 3]); (3, [1; 2])] [[1]; [2; 3]] = Ok [[1; 2; 3]] /\ gen_rings_count [(1, [2]); (2, [1; 9])] = Err KeyError.
+Proof. exact sssr_translated_example. Qed.
+Print Assumptions C06_sssr_translated_example.
+
+(* ---- the fuel of the _connected_rings model is sufficient: the loop index grows by one per round and a replaced ring list keeps its
+   length, so the loop ends by running past the end of the list no later than the fuel (= len(rings)) runs out ---- *)
+Theorem C06_cr_inner_length : forall c rings todo j rings', cr_inner c rings j todo = Ok (Some rings') -> length rings' = length rings.
+Proof. exact cr_inner_length. Qed.
+Print Assumptions C06_cr_inner_length.
+
+Theorem C06_cr_outer_more_fuel : forall fuel i rings out k, (length rings <= fuel + i)%nat ->
+  cr_outer (fuel + k) i rings out = cr_outer fuel i rings out.
+Proof. exact cr_outer_more_fuel. Qed.
+Print Assumptions C06_cr_outer_more_fuel.
+
+Theorem C06_connected_rings_fuel_independent : forall rings k, cr_outer (length rings + k) O rings [] = connected_rings rings.
+Proof. exact connected_rings_fuel_independent. Qed.
+Print Assumptions C06_connected_rings_fuel_independent.
+
+Theorem C06_connected_rings_fuel_example :
+  connected_rings [[1; 2; 3]; [2; 3; 4]] = Ok [[1; 2; 4; 3]] /\ cr_outer 7 O [[1; 2; 3]; [2; 3; 4]] [] = Ok [[1; 2; 4; 3]].
+Proof. exact connected_rings_fuel_example. Qed.
+Print Assumptions C06_connected_rings_fuel_example.
